@@ -258,14 +258,45 @@ fn hot_reloading_thread(
     select.recv(&cache_msg);
     select.recv(&events);
 
+    // Entries whose event was examined while no registered asset depended on
+    // them. An asset is registered by a message in `cache_msg`, which may
+    // still be queued when an event about one of its files is examined
+    // (though the asset was loaded before the file changed). Such entries are
+    // therefore kept until the messages that were queued at that time have
+    // been processed (`pending` of them are left).
+    let mut unknown = Vec::new();
+    let mut pending = 0;
+
     loop {
         // We don't use `select` method here as we always want to check
         // `cache_msg` channel first.
-        let ready = select.ready();
+        let ready = if unknown.is_empty() {
+            select.ready()
+        } else {
+            0
+        };
 
         loop {
-            match cache_msg.try_recv() {
-                Ok(CacheMessage::Ptr(ptr, reloader, token)) => {
+            let msg = match cache_msg.try_recv() {
+                Ok(msg) => msg,
+                Err(channel::TryRecvError::Empty) => break,
+                // The cache was dropped, we can stop now
+                Err(channel::TryRecvError::Disconnected) => {
+                    log::info!("Stopping hot-reloading");
+                    return;
+                }
+            };
+
+            if pending > 0 {
+                pending -= 1;
+            } else {
+                // Every message that was queued when these entries were
+                // examined has been processed: no asset uses them.
+                unknown.clear();
+            }
+
+            match msg {
+                CacheMessage::Ptr(ptr, reloader, token) => {
                     // Take into account every event that was sent before
                     // this request. Requests have priority over events, so
                     // events could otherwise be ignored for as long as
@@ -273,11 +304,15 @@ fn hot_reloading_thread(
                     // that are already queued are handled, so that this
                     // stays a bounded amount of work whatever arrives
                     // meanwhile.
+                    let known = unknown.len();
                     for _ in 0..events.len() {
                         match events.try_recv() {
-                            Ok(msg) => cache.handle_events(msg),
+                            Ok(msg) => cache.handle_events(msg, &mut unknown),
                             Err(_) => break,
                         }
+                    }
+                    if unknown.len() > known {
+                        pending = pending.max(cache_msg.len());
                     }
 
                     // Safety: The received pointer is guaranteed to
@@ -287,23 +322,24 @@ fn hot_reloading_thread(
                     }
                     answers.0.notify(token);
                 }
-                Ok(CacheMessage::Static(asset_cache, reloader)) => {
+                CacheMessage::Static(asset_cache, reloader) => {
                     cache.use_static_ref(asset_cache, reloader)
                 }
-                Ok(CacheMessage::Clear) => cache.clear_local_cache(),
-                Ok(CacheMessage::AddAsset(infos)) => cache.add_asset(infos),
-                Err(channel::TryRecvError::Empty) => break,
-                // The cache was dropped, we can stop now
-                Err(channel::TryRecvError::Disconnected) => {
-                    log::info!("Stopping hot-reloading");
-                    return;
-                }
+                CacheMessage::Clear => cache.clear_local_cache(),
+                CacheMessage::AddAsset(infos) => cache.add_asset(infos, &mut unknown),
             }
         }
 
+        // Nothing is queued anymore
+        unknown.clear();
+        pending = 0;
+
         if ready == 1 {
             match events.try_recv() {
-                Ok(msg) => cache.handle_events(msg),
+                Ok(msg) => {
+                    cache.handle_events(msg, &mut unknown);
+                    pending = cache_msg.len();
+                }
                 Err(crossbeam_channel::TryRecvError::Empty) => (),
                 // We won't receive events anymore, we can stop now
                 Err(crossbeam_channel::TryRecvError::Disconnected) => break,
